@@ -312,6 +312,20 @@ def run(ctx):
             case = dict(dense=dense, commons=commons, extents=[big, 3][:k], modes=["boundary"] * k, N=N)
             ctx.hit("extent_boundary")
             check(ctx, case, reqs, pend, [big, 3][:k])
+    # dimensions that LIST 255 / 256 / 257 categories (every category occurs): any per-entry code or counter of one byte
+    # is crossed; the wide dimension first and second, a small one beside it whose uncommon rows meet the last-listed category
+    for E in ((256, 257, 258) if ctx.scale == 1 else (255, 256, 257, 258, 300)):
+        for wide_first in (False, True):
+            N = E + 40
+            wide = np.array([i % E for i in range(N)], dtype=np.int64)
+            small = np.array([(i * 7 + i // E) % 3 for i in range(N)], dtype=np.int64)
+            small[E - 1] = 1
+            small[E - 2] = 2
+            dense = [wide, small] if wide_first else [small, wide]
+            exts = [E, 3] if wide_first else [3, E]
+            case = dict(dense=dense, commons=[0, 0], extents=exts, modes=["many_entries"] * 2, N=N)
+            ctx.hit("many_listed_categories")
+            check(ctx, case, reqs, pend, exts)
     big_rows(ctx, reqs, pend)
     big_scaffold(ctx)
     if ctx.oracle_only:
